@@ -1586,12 +1586,52 @@ def _ref_blocks(path):
         if m: blocks[m.group(1)] = b.strip('\n')
     return blocks
 
+def _walk(s, i, refmap, collect):
+    """s[i] == '(' ; returns (text, canon, index after the group).  With `collect` (a dict) the orientation of every
+    commutative node is recorded (canon of node -> canon of its first operand); otherwise nodes are oriented like `refmap`."""
+    items, pieces, j = [], [], i + 1
+    while j < len(s) and s[j] != ')':
+        if s[j] == '(':
+            t, c, j = _walk(s, j, refmap, collect); items.append((t, c)); pieces.append(t)
+        elif s[j] in ' \n':
+            pieces.append(s[j]); j += 1
+        else:
+            k = j
+            while k < len(s) and s[k] not in ' \n()': k += 1
+            items.append((s[j:k], s[j:k])); pieces.append(s[j:k]); j = k
+    if len(items) == 3 and items[1][0] in ('+', '*'):
+        (ta, ca), (op, _), (tb, cb) = items
+        x, y = sorted([ca, cb])
+        node = '(' + x + ' ' + op + ' ' + y + ')'
+        if collect is not None:
+            collect.setdefault(node, ca)
+            return '(' + ''.join(pieces) + ')', node, j + 1
+        if refmap.get(node) == cb and ca != cb:
+            return '(' + tb + ' ' + op + ' ' + ta + ')', node, j + 1
+        return '(' + ''.join(pieces) + ')', node, j + 1
+    return '(' + ''.join(pieces) + ')', '(' + ' '.join(c for _, c in items) + ')', j + 1
+
+def _walk_top(s, refmap, collect):
+    out, i = [], 0
+    while i < len(s):
+        if s[i] == '(':
+            t, _, i = _walk(s, i, refmap, collect); out.append(t)
+        else:
+            out.append(s[i]); i += 1
+    return ''.join(out)
+
 def orient_like_reference(txt, ref):
     out = []
     for b in txt.split('\n\n'):
         m = re.match(r'^\s*def (\S+)', b)
         r = ref.get(m.group(1)) if m else None
         if r is not None and r != b.strip('\n') and _canon(r) == _canon(b): out.append(r)
+        elif r is not None and r != b.strip('\n'):
+            # not equal as a whole (something else changed too): orient every commutative sub-term that also occurs in the
+            # reference definition the way the reference writes it
+            refmap = {}
+            _walk_top(r, {}, refmap)
+            out.append(_walk_top(b, refmap, None))
         else: out.append(b)
     return '\n\n'.join(out)
 
